@@ -1,6 +1,8 @@
 package vc
 
 import (
+	"strconv"
+	"runtime"
 	"bytes"
 	"context"
 	"fmt"
@@ -336,14 +338,18 @@ func decide(o *Obl, file string, timeout time.Duration, stats *SolveStats) {
 		stats.Seconds += so.secs
 		stats.mu.Unlock()
 	}
+	// a machine that is busy with other work gets proportionally longer budgets (a timeout is not a refutation)
+	lf := loadFactor()
+	timeout = time.Duration(float64(timeout) * lf)
 	// first attempt: z3-new with a short budget
 	first := timeout
-	if first > 3*time.Second {
-		first = 3 * time.Second
+	if first > time.Duration(float64(3*time.Second)*lf) {
+		first = time.Duration(float64(3*time.Second) * lf)
 	}
 	if o.Canary {
 		// a vacuity canary only has to fail to be proved: a short budget is enough
 		first = 1500 * time.Millisecond
+		_ = lf
 	}
 	so := runSolver(ctx, Solvers[0], file, first)
 	record(so)
@@ -429,7 +435,7 @@ func Retry(rs []*FuncResult, dir string, timeout time.Duration, stats *SolveStat
 			}
 		}
 	}
-	if len(jobs) == 0 || len(jobs) > 60 {
+	if len(jobs) == 0 || len(jobs) > 200 {
 		return 0
 	}
 	ch := make(chan job)
@@ -567,4 +573,34 @@ func VacuousCanaries(r *FuncResult) []*Obl {
 		bad = append(bad, deadOther[i])
 	}
 	return bad
+}
+
+
+// loadFactor: 1 on an idle machine; load average / number of CPUs when the machine is oversubscribed (capped at 8).
+// The solver processes of this run alone (12 workers) do not oversubscribe a 16-core machine.
+func loadFactor() float64 {
+	b, err := os.ReadFile("/proc/loadavg")
+	if err != nil {
+		return 1
+	}
+	f := strings.Fields(string(b))
+	if len(f) == 0 {
+		return 1
+	}
+	l, err := strconv.ParseFloat(f[0], 64)
+	if err != nil {
+		return 1
+	}
+	n := float64(runtime.NumCPU())
+	if n < 1 {
+		n = 1
+	}
+	x := l / n
+	if x < 1 {
+		return 1
+	}
+	if x > 8 {
+		return 8
+	}
+	return x
 }
